@@ -42,6 +42,8 @@ type EntrySnapshot struct {
 	Fn     *ssa.Function
 	Params []EntryParam
 	Extra  map[string]string // named symbolic terms of interest (heap fields etc.)
+	ex     *Exec
+	st     *State
 }
 type EntryParam struct {
 	Name string
@@ -62,6 +64,8 @@ type State struct {
 	iters    map[*ssa.BasicBlock]int
 	ghost    map[string]Val // ghost variables (lock state, ...)
 	fresh    []T            // refs allocated on this path
+	lits     map[*Region][]int16 // known constant bytes of array/literal regions (-1 unknown)
+	heads    map[int]*State      // state at the head of each open loop (by ordinal), for at(k, e)
 	depth    int
 	dead     bool
 }
@@ -79,7 +83,17 @@ func (s *State) clone() *State {
 		variants: make(map[*ssa.BasicBlock][]T, len(s.variants)),
 		iters:    make(map[*ssa.BasicBlock]int, len(s.iters)),
 		ghost:    make(map[string]Val, len(s.ghost)),
+		lits:     make(map[*Region][]int16, len(s.lits)),
 		depth:    s.depth,
+	}
+	for k, v := range s.lits {
+		n.lits[k] = v
+	}
+	if s.heads != nil {
+		n.heads = make(map[int]*State, len(s.heads))
+		for k, v := range s.heads {
+			n.heads[k] = v
+		}
 	}
 	for k, v := range s.cells {
 		n.cells[k] = v
@@ -110,6 +124,9 @@ func (s *State) clone() *State {
 
 func (s *State) assume(f T) {
 	if f == "true" {
+		return
+	}
+	if n := len(s.facts); n > 0 && s.facts[n-1] == f {
 		return
 	}
 	if f == "false" {
@@ -171,6 +188,9 @@ type Exec struct {
 	inlinedFns    map[string]bool
 	usedContracts map[string]bool
 	gcells        map[*ssa.Global]*Cell
+	dynHeapSorts  map[string][]string
+	initMode      bool
+	noInits       bool
 }
 
 type ExecMode struct {
@@ -234,8 +254,13 @@ func (ex *Exec) freshVal(st *State, hint string, t types.Type, strict bool) Val 
 		if n, ok := heapStructName(u.Elem()); ok {
 			x := ex.decls.fresh(hint, SInt)
 			st.assume(tLe("0", x))
-			st.assume(tLe(x, ex.heapTop()))
 			return VRef{x, n}
+		}
+		if _, isNamedStruct := u.Elem().Underlying().(*types.Struct); !isNamedStruct {
+			// pointer to a non-struct variable (e.g. *readBuf): a cell with arbitrary contents
+			c := ex.newCell(hint, u.Elem())
+			st.cells[c] = ex.freshVal(st, hint+"_pointee", u.Elem(), strict)
+			return VCellPtr{C: c}
 		}
 		x := ex.decls.fresh(hint, SInt)
 		return VOpaque{x, t}
@@ -243,6 +268,8 @@ func (ex *Exec) freshVal(st *State, hint string, t types.Type, strict bool) Val 
 		x := ex.decls.fresh(hint, SInt)
 		st.assume(tLe("0", x))
 		return VFunc{ID: x}
+	case *types.Map:
+		return VMap{ID: ex.decls.fresh(hint, SInt), Typ: t, Unknown: true}
 	case *types.Interface:
 		return VIface{ID: ex.decls.fresh(hint, SInt)}
 	}
@@ -284,6 +311,8 @@ func (ex *Exec) flatten(st *State, v Val, t types.Type) []T {
 	case VFunc:
 		return []T{x.ID}
 	case VIface:
+		return []T{x.ID}
+	case VMap:
 		return []T{x.ID}
 	case VSlice:
 		m := st.mem[x.R]
@@ -397,6 +426,9 @@ func zeroVal(ex *Exec, st *State, t types.Type) Val {
 		}
 		st.mem[r] = m
 		n := num(u.Len())
+		if isByteElem(u.Elem()) && u.Len() <= 4096 {
+			st.lits[r] = make([]int16, u.Len())
+		}
 		return VSlice{R: r, Elem: u.Elem(), Off: "0", Len: n, Cap: n}
 	case *types.Struct:
 		vs := VStruct{Typ: t}
@@ -413,6 +445,8 @@ func zeroVal(ex *Exec, st *State, t types.Type) Val {
 		return VFunc{ID: "0"}
 	case *types.Interface:
 		return VIface{ID: "0"}
+	case *types.Map:
+		return VMap{ID: "0", Typ: t}
 	}
 	return VOpaque{"0", t}
 }
@@ -420,12 +454,8 @@ func zeroVal(ex *Exec, st *State, t types.Type) Val {
 func (ex *Exec) litSlice(st *State, b []byte, str bool) VSlice {
 	r := ex.newRegion("lit", false, true)
 	m := zeroOfSort(SBytes)
-	if len(b) > 0 {
-		name := ex.decls.fresh("lit", SBytes)
-		for i, c := range b {
-			st.assume(tEq(tSel(name, num(int64(i))), num(int64(c))))
-		}
-		m = name
+	for i, c := range b {
+		m = tStore(m, num(int64(i)), num(int64(c)))
 	}
 	st.mem[r] = []T{m}
 	n := num(int64(len(b)))
@@ -600,7 +630,8 @@ func (ex *Exec) newFrame(fn *ssa.Function, caller *frame) *frame {
 
 func (ex *Exec) runTop(fn *ssa.Function) {
 	st := &State{cells: map[*Cell]Val{}, regs: map[ssa.Value]Val{}, mem: map[*Region][]T{}, heap: map[string][]T{},
-		variants: map[*ssa.BasicBlock][]T{}, iters: map[*ssa.BasicBlock]int{}, ghost: map[string]Val{}}
+		variants: map[*ssa.BasicBlock][]T{}, iters: map[*ssa.BasicBlock]int{}, ghost: map[string]Val{}, lits: map[*Region][]int16{}}
+	ex.runInits(st, fn)
 	f := ex.newFrame(fn, nil)
 	ex.top = f
 	ex.fnKey = f.key
@@ -609,6 +640,11 @@ func (ex *Exec) runTop(fn *ssa.Function) {
 	ex.prog.initGlobals(ex, st, fn.Pkg)
 	for _, p := range fn.Params {
 		v := ex.freshVal(st, "in_"+p.Name(), p.Type(), true)
+		if r, ok := v.(VRef); ok {
+			// objects that exist at entry lie below the allocation frontier
+			st.assume(tLe("0", ex.heapTop()))
+			st.assume(tLe(r.T, ex.heapTop()))
+		}
 		if sl, ok := v.(VSlice); ok {
 			sl.R.input = true
 			snap.Params = append(snap.Params, EntryParam{p.Name(), p.Type(), v, st.mem[sl.R]})
@@ -630,6 +666,8 @@ func (ex *Exec) runTop(fn *ssa.Function) {
 		ex.rel.setup(ex, st, f)
 	}
 	f.entry = st.clone()
+	snap.ex = ex
+	snap.st = f.entry
 	// assume preconditions
 	if f.con != nil {
 		env := f.specEnv(st, f.entry, nil)
@@ -638,6 +676,7 @@ func (ex *Exec) runTop(fn *ssa.Function) {
 			st.assume(v)
 		}
 		f.entry = st.clone()
+		snap.st = f.entry
 		// vacuity cover: the precondition must be satisfiable
 		ex.cover(f, st, "cover.pre", "preconditions and type invariants are satisfiable")
 	}
@@ -661,7 +700,7 @@ func (ex *Exec) execBlock(f *frame, st *State, b *ssa.BasicBlock, from *ssa.Basi
 	}
 	if li := f.loops[b]; li != nil {
 		ls := f.loopSpec(li)
-		if ls != nil && ls.Unroll || f.ex.prog.forceUnroll[f.key] {
+		if ls != nil && ls.Unroll || f.ex.prog.forceUnroll[f.key] || ex.initMode {
 			st.iters[b]++
 			if st.iters[b] > 300 {
 				ex.aborted = fmt.Sprintf("%s: unrolled loop %d exceeded 300 iterations", f.key, li.ordinal)
@@ -841,7 +880,11 @@ func (f *frame) load(st *State, p Val, t types.Type, pos token.Pos, ins ssa.Inst
 		}
 		return v
 	case VElemPtr:
-		return f.readElem(st, a.S, a.Idx)
+		v := f.readElem(st, a.S, a.Idx)
+		for _, i := range a.Path {
+			v = v.(VStruct).F[i]
+		}
+		return v
 	case VFieldPtr:
 		return ex.heapLoad(st, a.St, a.Field, a.Ref)
 	case VGlobalPtr:
@@ -874,6 +917,10 @@ func (f *frame) store(st *State, p Val, v Val, t types.Type, ins ssa.Instruction
 		}
 		st.cells[a.C] = setPath(st.cells[a.C], a.Path, v)
 	case VElemPtr:
+		if len(a.Path) > 0 {
+			old := f.readElem(st, a.S, a.Idx)
+			v = setPath(old, a.Path, v)
+		}
 		f.writeElem(st, a.S, a.Idx, v, ins)
 	case VFieldPtr:
 		f.heapStoreChecked(st, a.St, a.Field, a.Ref, v, ins)
@@ -929,6 +976,22 @@ func (f *frame) writeElem(st *State, s VSlice, idx T, v Val, ins ssa.Instruction
 	if s.R.input && ex.mode.Safety && ins != nil {
 		f.ob(st, f.ord("frame.input", ins), ins.Pos(), "false", "write to memory of an input parameter (caller's buffer)")
 	}
+	if l, ok := st.lits[s.R]; ok {
+		ok2 := false
+		if iv, isInt := v.(VInt); isInt {
+			if c, isn := isNum(iv.T); isn && c.IsInt64() && c.Int64() >= 0 && c.Int64() < 256 {
+				if a, isa := isNum(tAdd(s.Off, idx)); isa && a.IsInt64() && a.Int64() >= 0 && a.Int64() < int64(len(l)) {
+					nl := append([]int16(nil), l...)
+					nl[a.Int64()] = int16(c.Int64())
+					st.lits[s.R] = nl
+					ok2 = true
+				}
+			}
+		}
+		if !ok2 {
+			delete(st.lits, s.R)
+		}
+	}
 	m := st.mem[s.R]
 	comps := ex.flatten(st, v, s.Elem)
 	at := tAdd(s.Off, idx)
@@ -954,9 +1017,15 @@ func (ex *Exec) heapArr(st *State, n *types.Named, field int) []T {
 	}
 	u := n.Underlying().(*types.Struct)
 	var comps []T
+	var ss []string
 	for i, s := range sortsOf(u.Field(field).Type()) {
 		comps = append(comps, ex.decls.named(fmt.Sprintf("H0_%s_%d", k, i), arrOf(s)))
+		ss = append(ss, arrOf(s))
 	}
+	if ex.dynHeapSorts == nil {
+		ex.dynHeapSorts = map[string][]string{}
+	}
+	ex.dynHeapSorts[k] = ss
 	st.heap[k] = comps
 	return comps
 }
